@@ -22,4 +22,15 @@ theorem tie_rotation_matrix_ypr (o : Src.Ops K) (yaw pitch roll : K) :
     Src.rotation_matrix_ypr o yaw pitch roll =
       rotYpr (o.ofNat 0) (o.ofNat 1) (o.cos yaw) (o.sin yaw) (o.cos pitch) (o.sin pitch) (o.cos roll) (o.sin roll) := rfl
 
+/-- **tie**: `to_gcs`, one point: `einsum("...ij,...i->...j", bases, coords) + origins` is `c · B + O` (rows of `B` are the basis vectors) -/
+theorem tie_to_gcs (o : Src.Ops K) (c : P3 K) (b : M3 K) (org : P3 K) : Src.to_gcs o c b org = toGcs c b org := rfl
+
+/-- **tie**: `from_gcs`, one point: `einsum("...ji,...i->...j", bases, p - origins)` is `B · (p − O)` -/
+theorem tie_from_gcs (o : Src.Ops K) (p : P3 K) (b : M3 K) (org : P3 K) : Src.from_gcs o p b org = fromGcs p b org := rfl
+
+/-- **tie**: `rotate` without a centre is `R · c`, with a centre `R · (c − centre) + centre` -/
+theorem tie_rotate_about_origin (o : Src.Ops K) (c : P3 K) (r : M3 K) : Src.rotate_about_origin o c r = rotate c r none := rfl
+theorem tie_rotate_about_centre (o : Src.Ops K) (c : P3 K) (r : M3 K) (centre : P3 K) :
+    Src.rotate_about_centre o c r centre = rotate c r (some centre) := rfl
+
 end Arim.Tie.C17
